@@ -235,14 +235,17 @@ def parseInst (m : FTok) (v : String) : P Node := do
       | .error _ => throw (.expected ["REGISTER", "LABEL"] next)
   | "JumpLinkR" => do
     let reg1 ← getReg
-    let next ← getAny
+    -- the token after the first register is only looked at: the one-register form ends here
+    let next ← peekAny
     match next.asReg with
     | .ok rs1 => do
+      let _ ← getAny
       let imm ← getImm
       pure (.jumpLinkR (wi sub m) reg1 rs1 imm (← rawNow))
     | .error _ =>
       match next.asImm with
       | .ok imm => do
+        let _ ← getAny
         if (← peekAny).isLParen then
           let _ ← getAny
           let rs1 ← getReg
@@ -252,6 +255,7 @@ def parseInst (m : FTok) (v : String) : P Node := do
           pure (.jumpLinkR (wi sub m) (x1 m) reg1 imm (← rawNow))
       | .error _ =>
         if next.isLParen then do
+          let _ ← getAny
           let rs1 ← getReg
           expectRParen
           pure (.jumpLinkR (wi sub m) reg1 rs1 (imm0 m) (← rawNow))
